@@ -1,6 +1,7 @@
 import GdslModel.Model.Store
 import GdslModel.Model.Spec
 import GdslModel.Model.Search
+import GdslModel.Model.Container
 /-!
 Line-protocol driver: reads an annotated program on stdin, prints the model's observation
 stream (one line per request). The harness runs the same program on the real code.
@@ -11,10 +12,12 @@ abbrev S := Store Nat Nat
 
 structure St where
   directed : Bool := true
+  fl : String := "di"
   keys : List Nat := []            -- creation order
   nvals : List (Nat × Int) := []   -- node values
   s : S := {}
   dead : Bool := false             -- the case was cut after a panic of the model
+  graphs : List (Nat × Cont Nat) := []   -- container slots
 
 def showList (l : List (Nat × Nat)) : String :=
   "[" ++ ",".intercalate (l.map fun (k, e) => s!"{k}:{e}") ++ "]"
@@ -132,6 +135,179 @@ def tf (b : Bool) : String := if b then "true" else "false"
 def doCmp (k1 : Nat) (v1 : Int) (k2 : Nat) (v2 : Int) : String :=
   s!"eq={tf (k1 == k2)} ne={tf (k1 != k2)} lt={tf (v1 < v2)} le={tf (v1 ≤ v2)} gt={tf (v1 > v2)} ge={tf (v1 ≥ v2)} cmp={showOrd v1 v2} pcmp=Some({showOrd v1 v2})"
 
+/-! ### containers -/
+
+def getG (st : St) (i : Nat) : Cont Nat :=
+  match st.graphs.find? (fun p => p.1 = i) with
+  | some p => p.2
+  | none => {}
+def setG (st : St) (i : Nat) (g : Cont Nat) : St :=
+  { st with graphs := (st.graphs.filter (fun p => p.1 != i)) ++ [(i, g)] }
+
+/-- the `@order=k1,k2,...` annotation of a request line (iteration order of the real hash map) -/
+def orderAnnot (toks : List String) : Option (List Nat) :=
+  match toks.find? (fun t => t.startsWith "@order=") with
+  | none => none
+  | some t =>
+    let body := (t.drop 7).toString
+    if body == "" then some [] else (body.splitOn ",").mapM (·.toNat?)
+
+def withOrder (st : St) (i : Nat) (toks : List String) (f : List Nat → String) : String :=
+  match orderAnnot toks with
+  | none => "bad-order"
+  | some π => if isOrderOf π (getG st i) then f π else "bad-order"
+
+def fmtAttr (a : List (String × String)) : String := String.join (a.map fun (k, v) => s!"[{k}=\"{v}\"]")
+
+def attrG : Nat → Option (List (String × String))
+  | 1 => some [("rankdir", "LR"), ("label", "g")]
+  | 2 => some []
+  | _ => none
+def attrN (t k : Nat) (v : Int) : Option (List (String × String)) :=
+  match t with
+  | 1 => some [("label", s!"n{v}")]
+  | 2 => if k % 2 == 0 then some [("shape", "box")] else none
+  | _ => none
+def attrE (t : Nat) (e : Nat) : Option (List (String × String)) :=
+  match t with
+  | 1 => some [("label", s!"{e}"), ("color", "red")]
+  | 2 => if e % 2 == 1 then some [("w", s!"{e}")] else none
+  | _ => none
+
+def iterAdj (st : St) : Nat → List (Nat × Nat) := if st.directed then outAdj st.s else unAdj st.s
+
+def toDot (st : St) (π : List Nat) : String :=
+  let body := String.join ((dotPlain (iterAdj st) π).map fun (k, ts) =>
+    s!"    {k}" ++ String.join (ts.map fun v => s!"|    {k} -> {v}") ++ "|")
+  "digraph {|" ++ body ++ "}"
+
+def toDotAttr (st : St) (t : Nat) (π : List Nat) : String :=
+  let g := match attrG t with
+    | some l => String.join (l.map fun (k, v) => s!"\\t{k}=\"{v}\"|")
+    | none => ""
+  let ns := String.join (π.map fun k =>
+    s!"\\t{k}" ++ (match attrN t k (nodeVal st k) with | some a => " " ++ fmtAttr a | none => "") ++ "|")
+  let es := String.join ((dotEdges (iterAdj st) π).map fun (u, v, e) =>
+    s!"\\t{u} -> {v}" ++ (match attrE t e with | some a => " " ++ fmtAttr a | none => "") ++ "|")
+  "digraph {|" ++ g ++ ns ++ es ++ "}"
+
+def showDoc (d : List (Nat × Int) × List (Nat × Nat × Nat)) : String :=
+  "[[" ++ ",".intercalate (d.1.map fun (k, v) => s!"[{k},{v}]") ++ "],[" ++
+    ",".intercalate (d.2.map fun (u, v, e) => s!"[{u},{v},{e}]") ++ "]]"
+
+/-- replace the world of the case by a rebuilt graph (slot 0) -/
+def newWorld (st : St) (ns : List (Nat × Int)) (s : S) : St :=
+  { st with keys := ns.map (·.1), nvals := ns, s := s, graphs := [(0, { members := ns.map (·.1) })] }
+
+/-- `@abs=notseq | any | seq;k:v,...;u>v:e,...` -/
+def parseAbs (toks : List String) : Option (Option (List (Nat × Int) × List (Nat × Nat × Nat))) :=
+  match toks.find? (fun t => t.startsWith "@abs=") with
+  | none => none
+  | some t =>
+    let body := (t.drop 5).toString
+    if body == "notseq" || body == "any" then some none else
+    match body.splitOn ";" with
+    | ["seq", ns, es] =>
+      let nodes := if ns == "" then some [] else (ns.splitOn ",").mapM fun x =>
+        match x.splitOn ":" with
+        | [k, v] => match k.toNat?, v.toInt? with
+          | some k, some v => some (k, v)
+          | _, _ => none
+        | _ => none
+      match nodes, parseRej (if es == "" then "-" else es) with
+      | some n, some e => some (some (n, e))
+      | _, _ => none
+    | _ => none
+
+def contReq (st : St) (toks : List String) : St × String :=
+  let args := toks.filter (fun t => !(t.startsWith "@"))
+  match args with
+  | ["g.new", i] => match i.toNat? with
+    | some i => (setG st i {}, "ok")
+    | none => (st, "bad-op")
+  | ["g.insert", i, k] => match i.toNat?, k.toNat? with
+    | some i, some k => let (g, r) := (getG st i).insert k; (setG st i g, tf r)
+    | _, _ => (st, "bad-op")
+  | ["g.insert_dup", i, k, _v] => match i.toNat?, k.toNat? with
+    | some i, some k =>
+      if (getG st i).contains k then (st, s!"false get=Some({nodeVal st k})") else (st, "skip")
+    | _, _ => (st, "bad-op")
+  | ["g.remove", i, k] => match i.toNat?, k.toNat? with
+    | some i, some k => let (g, r) := (getG st i).remove k; (setG st i g, if r then s!"Some({k})" else "None")
+    | _, _ => (st, "bad-op")
+  | ["g.get", i, k] => match i.toNat?, k.toNat? with
+    | some i, some k => (st, if (getG st i).contains k then s!"Some({k}:{nodeVal st k})" else "None")
+    | _, _ => (st, "bad-op")
+  | ["g.index", i, k] => match i.toNat?, k.toNat? with
+    | some i, some k => (st, if (getG st i).contains k then s!"{k}:{nodeVal st k}" else "panic")
+    | _, _ => (st, "bad-op")
+  | ["g.contains", i, k] => match i.toNat?, k.toNat? with
+    | some i, some k => (st, tf ((getG st i).contains k))
+    | _, _ => (st, "bad-op")
+  | ["g.len", i] => match i.toNat? with
+    | some i => (st, toString (getG st i).len)
+    | none => (st, "bad-op")
+  | ["g.is_empty", i] => match i.toNat? with
+    | some i => (st, tf ((getG st i).len == 0))
+    | none => (st, "bad-op")
+  | ["g.connect", i, u, v, e] => match i.toNat?, u.toNat?, v.toNat?, e.toNat? with
+    | some i, some u, some v, some e =>
+      if (getG st i).contains u && (getG st i).contains v then ({ st with s := connect st.s u v e }, "ok") else (st, "panic")
+    | _, _, _, _ => (st, "bad-op")
+  | ["g.to_vec", i] => match i.toNat? with
+    | some i => (st, withOrder st i toks showKeys)
+    | none => (st, "bad-op")
+  | ["g.iter", i] => match i.toNat? with
+    | some i => (st, withOrder st i toks fun π => "[" ++ ",".intercalate (π.map fun k => s!"{k}:{nodeVal st k}") ++ "]")
+    | none => (st, "bad-op")
+  | ["g.roots", i] => match i.toNat? with
+    | some i => (st, withOrder st i toks fun π => showKeys (rootsOf st.s π))
+    | none => (st, "bad-op")
+  | ["g.leaves", i] => match i.toNat? with
+    | some i => (st, withOrder st i toks fun π => showKeys (leavesOf st.s π))
+    | none => (st, "bad-op")
+  | ["g.orphans", i] => match i.toNat? with
+    | some i => (st, withOrder st i toks fun π => showKeys (orphansOf st.s π))
+    | none => (st, "bad-op")
+  | ["g.scc", i] => match i.toNat? with
+    | some i =>
+      if !st.directed then (st, "unsupported") else
+      (st, withOrder st i toks fun π =>
+        match scc (outAdj st.s) (inAdj st.s) π (st.keys.length + 2) with
+        | none => "out-of-fuel"
+        | some cs => "[" ++ ",".intercalate (cs.map showKeys) ++ "]")
+    | none => (st, "bad-op")
+  | ["g.to_dot", i] => match i.toNat? with
+    | some i => (st, withOrder st i toks (toDot st))
+    | none => (st, "bad-op")
+  | ["g.to_dot_attr", i, t] => match i.toNat?, t.toNat? with
+    | some i, some t => if st.fl == "sun" then (st, "unsupported") else (st, withOrder st i toks (toDotAttr st t))
+    | _, _ => (st, "bad-op")
+  | ["g.ser", i, _fmt] => match i.toNat? with
+    | some i => (st, withOrder st i toks fun π => showDoc (decompose st.s (nodeVal st) π))
+    | none => (st, "bad-op")
+  | ["g.roundtrip", i, _fmt] => match i.toNat? with
+    | some i =>
+      match orderAnnot toks with
+      | none => (st, "bad-order")
+      | some π =>
+        if !(isOrderOf π (getG st i)) then (st, "bad-order") else
+        let d := decompose st.s (nodeVal st) π
+        match rebuild d.1 d.2 with
+        | none => (st, "err")
+        | some (ns, s) => (newWorld st ns s, "ok")
+    | none => (st, "bad-op")
+  | "g.de" :: _i :: _fmt :: _doc =>
+    match parseAbs toks with
+    | none => (st, "bad-abs")
+    | some none =>
+      if toks.any (· == "@abs=notseq") then (st, "err") else (st, "any")
+    | some (some (nodes, edges)) =>
+      match rebuild nodes edges with
+      | none => (st, "err")
+      | some (ns, s) => (newWorld st ns s, s!"ok n={ns.length}")
+  | _ => (st, "bad-op")
+
 def stripVia (line : String) : String :=
   match line.splitOn " #" with
   | h :: _ => h
@@ -142,7 +318,7 @@ def edgeRes (st : St) (r : S × Res Nat) : St × String :=
 
 def step (st : St) (line : String) : St × String :=
   match (stripVia line.trimAscii.toString).splitOn " " with
-  | "case" :: fl :: _ => ({ directed := fl == "di" || fl == "sdi" }, "case")
+  | "case" :: fl :: _ => ({ directed := fl == "di" || fl == "sdi", fl := fl }, "case")
   | ["new", k, v] => match k.toNat?, v.toInt? with
     | some k, some v => ({ st with keys := st.keys ++ [k], nvals := st.nvals ++ [(k, v)] }, "ok")
     | _, _ => (st, "bad-op")
@@ -172,6 +348,7 @@ def step (st : St) (line : String) : St × String :=
   | ["cmp", k1, v1, k2, v2] => match k1.toNat?, v1.toInt?, k2.toNat?, v2.toInt? with
     | some k1, some v1, some k2, some v2 => (st, doCmp k1 v1 k2 v2)
     | _, _, _, _ => (st, "bad-op")
+  | t :: rest => if t.startsWith "g." then contReq st (t :: rest) else (st, "bad-op")
   | _ => (st, "bad-op")
 
 partial def loop (h : IO.FS.Stream) (out : IO.FS.Stream) (st : St) : IO Unit := do
